@@ -17,7 +17,8 @@ for seed in range(start, start + n):
     w = world.World(cfg, prop, tf)
     try:
         w.run(ops)
-        if w.foreign: foreign[(tuple(sorted(w.foreign.owners)), w.foreign.oracle)] += 1
+        if w.foreign:
+            fk=(tuple(sorted(w.foreign.owners)), w.foreign.oracle); foreign[fk] += 1; examples.setdefault(('FOREIGN',)+fk, (seed, cfg, str(w.foreign)[:700]))
     except world.Violation as v:
         key = (prop, v.oracle); viol[key] += 1
         examples.setdefault(key, (seed, cfg, str(v)[:600]))
